@@ -51,6 +51,18 @@ def handle (line : String) : String :=
       | none => s!"text={toHex e.1} dec=nil"
       | some b => s!"text={toHex e.1} dec=ok hashes={showHashes b.hashes} pt={toHex b.plaintext} bytes={toHex b.bytes} rest={toHex b.rest} sig={if cth b.bytes == e.2 then "ok" else "bad"}"
     | _, _, _ => "bad-op"
+  | "clrm" =>
+    -- clearsign.EncodeMulti: same text and canonical form whatever the number of signers; one signature packet per key
+    match o.nat? "nk", o.nat? "enc", o.hex? "hash", o.natList? "ch", o.hex? "pt" with
+    | some nk, some enc, some hn, some ch, some pt =>
+      if enc == 1 && nk > 0 then "err:arg"                       -- encrypted signing key: InvalidArgumentError
+      else if !([str "MD5", str "SHA1", str "RIPEMD160", str "SHA224", str "SHA256", str "SHA384", str "SHA512"].contains hn) then "err:unsup"
+      else
+        let e := csEncode hn (splitBy pt ch)
+        match csDecode (e.1 ++ placeholderSig) with
+        | none => s!"text={toHex e.1} dec=nil"
+        | some b => s!"text={toHex e.1} dec=ok hashes={showHashes b.hashes} pt={toHex b.plaintext} bytes={toHex b.bytes} rest={toHex b.rest} nsig={nk} sig={if nk == 0 then "none" else if cth b.bytes == e.2 then "ok" else "bad"}"
+    | _, _, _, _, _ => "bad-op"
   | "clr2" =>
     match o.natList? "ch", o.hex? "pt", o.hex? "pt2" with
     | some ch, some pt, some pt2 =>
